@@ -15,7 +15,7 @@
     (malloc/realloc/free of mp->buffer, boundary, regex_t), libc internals, the int
     truncation of [wb] for one buffer >= 2 GiB. *)
 From ZV Require Import Base.Bytes Dl.DlWrite Dl.Multipart Dl.FileLemmas Dl.DlProofs Dl.MpStream
-  Dl.MpSafe Dl.DlInv.
+  Dl.MpSafe Dl.DlInv Dl.LiteralMatcher Dl.LiteralProofs.
 Local Open Scope N_scope.
 
 Theorem C17_mpx_safe : forall H doff ridx rx_comp rx_exec,
@@ -67,6 +67,12 @@ Theorem C17_mismatch_zeroed : forall H doff ridx s bs s',
     fread (d_file s') (doff + c_start c) (N.to_nat (c_len c)) = repeat 0 (N.to_nat (c_len c)).
 Proof. exact dlw_fail_zeroed_gen. Qed.
 Print Assumptions C17_mismatch_zeroed.
+
+(** the contract is satisfiable by a realistic oracle: the literal matcher (the meaning of the
+    patterns zchunk builds, compared with glibc regexec on every run) obeys it *)
+Theorem C17_lit_contract : rx_contract lit_exec.
+Proof. exact lit_contract. Qed.
+Print Assumptions C17_lit_contract.
 
 (** Non-vacuity: an oracle that violates nothing but matches garbage offsets inside the
     string still cannot make the parser leave the buffer; an inverted range wraps. *)
